@@ -69,19 +69,6 @@ Proof.
 Qed.
 
 
-Lemma alookup_aremove {V} k y (g : list (string * V)) : alookup k (aremove y g) = if String.eqb k y then None else alookup k g.
-Proof.
-  induction g as [|[k' v] r IH]; cbn.
-  - now destruct (String.eqb k y).
-  - destruct (String.eqb_spec y k'); subst.
-    + rewrite IH. destruct (String.eqb_spec k k'); auto.
-    + cbn. destruct (String.eqb_spec k k'); subst.
-      * destruct (String.eqb_spec k' y); congruence.
-      * apply IH.
-Qed.
-Lemma alookup_aset {V} k y (v : V) g : alookup k (aset y v g) = if String.eqb k y then Some v else alookup k g.
-Proof. unfold aset. cbn. destruct (String.eqb_spec k y); auto. rewrite alookup_aremove. destruct (String.eqb_spec k y); congruence. Qed.
-
 Lemma str_mem_app z a b : str_mem z (a ++ b) = str_mem z a || str_mem z b.
 Proof. induction a; cbn; auto. rewrite IHa. now rewrite orb_assoc. Qed.
 
